@@ -197,8 +197,27 @@ def gen_case(rng):
     return f'unc {f2h(γ)} {vec2p(x)} {vec2p(g)}'
 
 
+BOUND_KINDS = ('pgs', 'inact', 'pmult', 'proj', 'pstep')
+INF_COV = {}          # kind -> {'-inf': ops with an infinite lower bound, '+inf': …, 'both': a free component}
+INF_TOK = (f2h(-INF), f2h(INF))
+
+
+def count_inf(op):
+    """coverage bookkeeping: which bound-taking op kinds were run with infinite sides (n ≥ 1)."""
+    t = op.split()
+    if t[0] not in BOUND_KINDS:
+        return
+    c = INF_COV.setdefault(t[0], {'ops': 0, '-inf': 0, '+inf': 0})
+    c['ops'] += 1
+    c['-inf'] += INF_TOK[0] in t
+    c['+inf'] += INF_TOK[1] in t
+
+
 def gen_ops(rng, n):
-    return [gen_case(rng) for _ in range(n)]
+    ops = [gen_case(rng) for _ in range(n)]
+    for op in ops:
+        count_inf(op)
+    return ops
 
 
 # ---------------------------------------------------------------- parsing helpers
@@ -641,7 +660,25 @@ CORPUS = [
     f'cl1v {vec2p([1.0])} {f2h(1e160)} {vec2p([3e200, 4e200])}',  # (γλ)² = inf ≥ |v|² = inf: code returns 0
     f'cl1s {f2h(1.0)} {f2h(1e-170)} {vec2p([3e-160, 4e-160])}',   # small but in range: correct
     f'cl1s {f2h(1.0)} {f2h(1e150)} {vec2p([3e150, -4e150])}',     # large but in range: correct
+    # every bound-taking kernel with -inf / +inf / both sides infinite (and a finite component next to them)
+    f'pgs {vec2p([1.0])} {f2h(1.0)} {vec2p([5.0, 0.0, -3.0, 0.5])} {vec2p([1.0, 0.0, 0.0, 0.0])} '
+    f'{vec2p([-INF, -1.0, -INF, -2.0])} {vec2p([2.0, INF, INF, 2.0])}',
+    f'pgs {vec2p([])} {f2h(0.5)} {vec2p([5.0, 0.0, -3.0, 0.5])} {vec2p([1.0, 4.0, 0.0, 0.0])} '
+    f'{vec2p([-INF, -1.0, -INF, -2.0])} {vec2p([2.0, INF, INF, 2.0])}',
+    f'pgs {vec2p([0.0, 2.0, 1.0, 0.0])} {f2h(0.5)} {vec2p([5.0, 0.0, -3.0, 0.5])} {vec2p([1.0, 4.0, 0.0, 0.0])} '
+    f'{vec2p([-INF, -1.0, -INF, -2.0])} {vec2p([2.0, INF, INF, 2.0])}',
+    f'inact {vec2p([1.0])} {f2h(1.0)} {vec2p([5.0, 0.0, -3.0, 0.5, 3.0])} {vec2p([1.0, 0.0, 0.0, 0.0, 0.0])} '
+    f'{vec2p([-INF, -1.0, -INF, -2.0, -INF])} {vec2p([2.0, INF, INF, 2.0, 2.0])}',
+    f'inact {vec2p([])} {f2h(1.0)} {vec2p([5.0, 0.0, -3.0, 0.5, 2.0])} {vec2p([1.0, 0.0, 0.0, 0.0, 0.0])} '
+    f'{vec2p([-INF, -1.0, -INF, -2.0, -INF])} {vec2p([2.0, INF, INF, 2.0, 2.0])}',
+    f'pmult 1 {f2h(10.0)} {vec2p([7.0, 4.0, -20.0, 5.0, 30.0, -4.0, 20.0])} '
+    f'{vec2p([0.0, -INF, 0.0, -INF, 0.0, -INF, 0.0])} {vec2p([1.0, 1.0, INF, INF, 1.0, 1.0, INF])}',
+    f'proj {vec2p([5.0, -7.0, 3.0, 9.0])} {vec2p([-INF, -1.0, -INF, 0.0])} {vec2p([2.0, INF, INF, 4.0])}',
+    f'pstep {f2h(-0.5)} {vec2p([5.0, 0.0, -3.0, 0.5])} {vec2p([1.0, 4.0, 0.0, -20.0])} '
+    f'{vec2p([-INF, -1.0, -INF, -2.0])} {vec2p([2.0, INF, INF, 2.0])}',
 ]
+for _op in CORPUS:
+    count_inf(_op)
 
 
 def impl_view(h):
@@ -666,7 +703,14 @@ def driver_input(op, h):
 
 
 def extra_stage(rep, broken, exe, tier):
-    """Compile probe: the shipped L1NormComplex::prox must instantiate without the harness shim."""
+    """Infinite-bound coverage of every bound-taking kernel; compile probe: the shipped
+    L1NormComplex::prox must instantiate without the harness shim."""
+    rep.cov['infinite_bound_ops_per_kind'] = {k: dict(v) for k, v in sorted(INF_COV.items())}
+    missing = [f'{k}:{side}' for k in BOUND_KINDS for side in ('-inf', '+inf')
+               if not INF_COV.get(k, {}).get(side)]
+    if missing:
+        rep.violation('the correspondence run exercised no infinite bound for ' + ', '.join(missing) +
+                      ' (generator / corpus of checks/c15.py)', {'missing': missing}, False)
     obj, log = C.compile_obj(os.path.join(C.VERIF, 'harness', 'c15_probe_cplx.cpp'))
     rep.cov['l1normcomplex_compiles_unshimmed'] = obj is not None
     if obj is None:
